@@ -105,6 +105,12 @@ def main():
     finally:
         sh(f"git -C /repo worktree remove --force {src}")
         shutil.rmtree(src, ignore_errors=True)
+    if os.environ.get("SEEDED_SKIP_CHECKS"):
+        with open(os.path.join(dst, "meta.json"), "w") as f:
+            json.dump(meta, f, indent=1)
+        print(name, "confirmed" if meta.get("confirmed") else "NOT CONFIRMED", meta.get("demo_without_change", {}).get("exit"),
+              meta.get("demo_with_change", {}).get("exit"), meta.get("ctest_pass"))
+        return
     # run our checks against /repo with the patch applied
     assert sh("git -C /repo status --porcelain --untracked-files=no")[1].strip() == "", "/repo has uncommitted changes"
     rc, out = sh(f"git -C /repo apply {patch}")
